@@ -98,24 +98,32 @@ def build_rule(spec):
     Rule = impl()[0]
     r = Rule()
     meth = {"named": "are_named", "sub": "are_sub_modules_of", "regex": "have_name_matching", "containing": "have_name_containing"}
+
+    def call(obj, name, *args):
+        # the fluent API: every call is made on what the previous call returned, as in rule.modules_that().are_named(..).should()...
+        nxt = getattr(obj, name)(*args)
+        if nxt is None:
+            raise FluentChainBroken(f"{name}() returned None: the call chain cannot be continued")
+        return nxt
     if spec.get("subj") is not None:
-        r.modules_that()
+        r = call(r, "modules_that")
         kind, names = spec["subj"]
-        getattr(r, meth[kind])(names[0] if kind == "regex" else _spell_names(names))
+        r = call(r, meth[kind], names[0] if kind == "regex" else _spell_names(names))
     for v in spec.get("verbs", []):
-        getattr(r, v)()
+        r = call(r, v)
     if spec.get("anything"):
-        if spec["imp"]:
-            r.import_anything()
-        else:
-            r.be_imported_by_anything()
+        r = call(r, "import_anything" if spec["imp"] else "be_imported_by_anything")
     elif spec.get("imp") is not None:
         name = ("import_modules" if spec["imp"] else "be_imported_by_modules") + ("_except_modules_that" if spec.get("exc") else "_that")
-        getattr(r, name)()
+        r = call(r, name)
     if spec.get("obj") is not None:
         kind, names = spec["obj"]
-        getattr(r, meth[kind])(names[0] if kind == "regex" else _spell_names(names))
+        r = call(r, meth[kind], names[0] if kind == "regex" else _spell_names(names))
     return r
+
+
+class FluentChainBroken(Exception):
+    pass
 
 
 CONFIG_ERRORS = ("ImproperlyConfigured", "RuleInconsistency")
@@ -131,13 +139,39 @@ def classify_exception(e: BaseException) -> str:
     return "OtherError:" + type(e).__name__
 
 
+class EvaluationTimeout(Exception):
+    """An evaluation in the library used more CPU time than any terminating evaluation of a generated case can need."""
+
+
+def cpu_limited(fn, seconds=None):
+    """Runs fn() under a CPU-time limit (ITIMER_VIRTUAL / SIGVTALRM: independent of the wall-clock watchdog of check.py).
+    A library change that makes an evaluation loop forever then surfaces as an outcome of THAT input instead of a stuck check."""
+    import signal
+    import threading
+    if threading.current_thread() is not threading.main_thread():
+        return fn()
+    seconds = seconds or float(os.environ.get("VERIF_EVAL_CPU_S") or 30)
+
+    def on_timer(_s, _f):
+        raise EvaluationTimeout(f"no result after {seconds} s of CPU time")
+    old = signal.signal(signal.SIGVTALRM, on_timer)
+    signal.setitimer(signal.ITIMER_VIRTUAL, seconds)
+    try:
+        return fn()
+    finally:
+        signal.setitimer(signal.ITIMER_VIRTUAL, 0)
+        signal.signal(signal.SIGVTALRM, old)
+
+
 def run_rule(rule, arch):
     """-> (verdict, detail): ('PASS', ''), ('FAIL', message), ('ERR', family)"""
     try:
-        rule.assert_applies(arch)
+        cpu_limited(lambda: rule.assert_applies(arch))
         return ("PASS", "")
     except AssertionError as e:
         return ("FAIL", str(e))
+    except EvaluationTimeout as e:
+        return ("ERR", "NonTermination: " + str(e))
     except Exception as e:  # noqa: BLE001
         return ("ERR", classify_exception(e))
 
